@@ -454,7 +454,8 @@ pub fn check_main(a: CheckArgs) -> i32 {
     // own-determinism: re-run a slice of the same seeds and compare event-log digests
     let mut nondet = vec![];
     if a.keep_log {
-        let n = 64.min(a.runs);
+        // grid checks run hundreds of cases per index
+        let n = if matches!(a.check.as_str(), "C06" | "C08" | "C05") { 6.min(a.runs) } else { 64.min(a.runs) };
         let again = run_check(&CheckArgs {
             check: a.check.clone(),
             tier: a.tier,
